@@ -201,10 +201,10 @@ def lanczosWeights [Mul K] [Div K] [NatCast K] (sinc : K → K) (N : Nat) (timeS
     sinc (n / ((N + 1 : Nat) : K)) * sinc (n * timeSpan / (cutoff * (N : K)))
 
 /-- `weights.sum()` -/
-def wsum [Add K] [Zero K] (w : List K) : K := w.foldl (· + ·) 0
+def weightSum [Add K] [Zero K] (w : List K) : K := w.foldl (· + ·) 0
 
 /-- `total_weight = init_weight + 2 * weights.sum()` with `init_weight = 1.0` -/
-def dfiTotal [Add K] [Mul K] [Zero K] [One K] (w : List K) : K := 1 + (1 + 1) * wsum w
+def dfiTotal [Add K] [Mul K] [Zero K] [One K] (w : List K) : K := 1 + (1 + 1) * weightSum w
 
 /-- the body of `digital_filter_initialization(...)(state)` once the (unnormalised) weights are
  known: forward and backward filtered steps, normalisation, `sum([init, forward, backward])`
